@@ -1,0 +1,58 @@
+// Verification hooks: read-only accessors for the unexported automaton
+// state of the resumable parsers. They are compiled only with the "verif"
+// build tag, add no behaviour and are used only to report which automaton
+// states a monitoring run actually suspended/resumed in.
+
+//go:build verif
+// +build verif
+
+package sipsp
+
+func init() {
+	BuildTags = append(BuildTags, "verif")
+}
+
+// VerifState returns the message-level section state and the saved
+// message start offset.
+func (m *PSIPMsg) VerifState() (uint8, int) { return m.state, m.offs }
+
+// VerifState returns the first-line automaton state.
+func (fl *PFLine) VerifState() uint8 { return fl.state }
+
+// VerifState returns the header-line automaton state.
+func (h *Hdr) VerifState() uint8 { return h.state }
+
+// VerifState returns the name-addr automaton state.
+func (fv *PFromBody) VerifState() uint8 { return fv.state }
+
+// VerifState returns the CSeq automaton state.
+func (cs *PCSeqBody) VerifState() uint8 { return cs.state }
+
+// VerifState returns the Call-ID automaton state.
+func (cv *PCallIDBody) VerifState() uint8 { return cv.state }
+
+// VerifState returns the unsigned-int value automaton state.
+func (cl *PUIntBody) VerifState() uint8 { return cl.state }
+
+// VerifState returns the token-parameter automaton state.
+func (pt *PTokParam) VerifState() uint8 { return pt.state }
+
+// VerifScratchState returns the automaton state of the private scratch
+// header (used when the caller's header array is full).
+func (hl *HdrLst) VerifScratchState() uint8 { return hl.hdr.state }
+
+// VerifScratchState returns the automaton state of the private scratch
+// contact value (used when the caller's value array is full).
+func (c *PContacts) VerifScratchState() uint8 { return c.last.state }
+
+// VerifScratchState returns the automaton state of the private scratch
+// PAI value (used when the value array is full).
+func (c *PPAIs) VerifScratchState() uint8 { return c.last.state }
+
+// VerifScratchState returns the automaton state of the private scratch
+// uri parameter (used when the caller's array is full).
+func (l *URIParamsLst) VerifScratchState() uint8 { return l.tmp.Param.state }
+
+// VerifScratchState returns the automaton state of the private scratch
+// uri header (used when the caller's array is full).
+func (l *URIHdrsLst) VerifScratchState() uint8 { return l.tmp.state }
